@@ -73,7 +73,9 @@ def build_case(cid, g, rng, nbatches, images=None, faults_p=0.0):
     hot = [rng.randrange(0, nclus) for _ in range(3)]
     prelude = []
     for b in range(nbatches):
-        if b == 0 and rng.random() < 0.5:
+        stale_style = (images is None and b == 0 and bool(getattr(g, 'tail', None)) and g.l2[0] < g.cb
+                       and nclus > (1 << g.l2[0]) // 8 + 2 and rng.random() < 0.8)
+        if b == 0 and not stale_style and rng.random() < 0.5:
             # prelude: the hot clusters are allocated and flushed before the concurrent part
             for hc in hot:
                 tag += 1
@@ -98,8 +100,39 @@ def build_case(cid, g, rng, nbatches, images=None, faults_p=0.0):
             tag += 1
             if rng.random() < 0.5:
                 ops.append(('F',))
+        rb_slots = g.rb[1] >> g.rb[0]
+        per_rb = ((1 << g.rb[0]) * 8) >> g.ro
+        if not evict_style and images is None and b == 0 and nclus > rb_slots * per_rb + 8 and rng.random() < 0.6:
+            # refcount-block cache pressure: host clusters covering every cached refblock slice are allocated (dirty
+            # slices, no flush), then an allocation that needs one more slice (evicts a dirty one) races with flush_meta
+            fill = max(1, rb_slots * per_rb - rng.choice([10, 14, 20]))
+            tag += 1
+            lines.append('W 0 %d %d' % (fill * g.cs, tag))
+            prelude.append(('W', 0, fill * g.cs, tag))
+            k2 = min(nclus - fill, rng.choice([16, 24, 30]))
+            ops = [('W', fill * g.cs, k2 * g.cs, tag + 1), ('F',)]
+            tag += 1
+            if rng.random() < 0.5 and nclus - fill - k2 > 0:
+                ops.append(('W', (fill + k2) * g.cs, g.cs, tag + 1))
+                tag += 1
+            rng.shuffle(ops)
+        if not evict_style and stale_style:
+            # a new L2 table lands on host bytes that are not zero (stale tail of the host file); its first slice is
+            # written back by a discard (not by flush_meta) while another slice of the same table is loaded
+            a = rng.randrange(0, per_slice)
+            tag += 1
+            lines.append('W %d %d %d' % (a * g.cs, g.cs, tag))
+            prelude.append(('W', a * g.cs, g.cs, tag))
+            o = per_slice + rng.randrange(0, min(per_slice, nclus - per_slice))
+            ops = [('D', a * g.cs, g.cs), rng.choice([('R', o * g.cs, 512), ('W', o * g.cs, 512, tag + 1), ('R', o * g.cs, g.cs)])]
+            tag += 1
+            if rng.random() < 0.4:
+                ops.append(('F',))
+            rng.shuffle(ops)
         seed = rng.randrange(1, 1 << 40)
         mode = rng.choice([0, 0, 1, 2, 3])
+        if stale_style and not evict_style and rng.random() < 0.9:
+            mode = 3   # the request issued last completes first: a slice load overtakes the zeroing issued before it
         faulty = rng.random() < faults_p or evict_style
         if faulty:
             # one backend write (metadata area: low host offsets) fails during this batch
@@ -111,6 +144,8 @@ def build_case(cid, g, rng, nbatches, images=None, faults_p=0.0):
         lines.append('par %d %d %d %d' % (seed, mode, 200000, len(ops)))
         # some operations start late (after a few scheduler steps): @<n> prefix
         delays = [rng.choice([0, 0, 0, 3, 8, 15, 30]) if i > 0 else 0 for i in range(len(ops))]
+        if stale_style and not evict_style:
+            delays = [0 if o[0] == 'D' else rng.choice([2, 3, 4, 5, 6, 7, 8, 9, 10]) for o in ops]
         lines += [('@%d ' % dl if dl else '') + hist.op_line(o) for o, dl in zip(ops, delays)]
         if faulty:
             lines.append('faults clear')
